@@ -17,7 +17,9 @@ MC_MODULES = ["rig.machine_control", "rig.machine_control.machine_controller",
 TIMEOUTS = [0.02, 0.05, 0.1, 0.5]
 # buffer sizes "a machine may report": the real one (256) plus others of every
 # residue mod 4, sizes just below a power of two included
-BUFFERS = [16, 24, 32, 64, 100, 120, 128, 248, 255, 256, 512]
+# (44, 108, 236, 492: the receive length, a power of two, changes between
+# buffer + 10 and buffer + 26)
+BUFFERS = [16, 24, 32, 64, 100, 120, 128, 248, 255, 256, 512, 108, 236, 44, 492]
 
 RELIABLE_FAULTS = ["req_loss", "rep_loss", "rep_delay", "rep_dup",
                    "retryable_rc", "slow_machine", "partition",
